@@ -14,6 +14,9 @@ def get(name):
     elif name == "C09":
         from .engine_curve import CurveEngineC09
         e = CurveEngineC09()
+    elif name == "C10":
+        from .engine_curve import CurveEngineC10
+        e = CurveEngineC10()
     else:
         raise KeyError(name)
     _cache[name] = e
